@@ -112,24 +112,24 @@ Proof. exact reconcile_keeps_le. Qed.
 Theorem C13_buffer :
   forall recon l ai li am lm,
   Forall pos_ok l -> Forall entry_le recon ->
-  health_components RInitial recon l (0, 0) = Ok (ai, li) ->
-  health_components RMaint recon l (0, 0) = Ok (am, lm) ->
+  health_components CRInitial recon l (0, 0) = Ok (ai, li) ->
+  health_components CRMaint recon l (0, 0) = Ok (am, lm) ->
   ai <= am /\ lm <= li /\ (li <= ai -> lm <= am).
 Proof. exact buffer. Qed.
 
 Theorem C13_buffer_with_emode :
   forall l ai li am lm,
   Forall pos_ok l -> Forall pos_emode_ok l ->
-  account_health RInitial l = Ok (ai, li) ->
-  account_health RMaint l = Ok (am, lm) ->
+  account_health CRInitial l = Ok (ai, li) ->
+  account_health CRMaint l = Ok (am, lm) ->
   li <= ai -> lm <= am.
 Proof. exact buffer_with_emode. Qed.
 
 Theorem C13_buffer_without_emode :
   forall l ai li am lm,
   Forall pos_ok l ->
-  account_health_no_emode RInitial l = Ok (ai, li) ->
-  account_health_no_emode RMaint l = Ok (am, lm) ->
+  account_health_no_emode CRInitial l = Ok (ai, li) ->
+  account_health_no_emode CRMaint l = Ok (am, lm) ->
   li <= ai -> lm <= am.
 Proof. exact buffer_without_emode. Qed.
 
@@ -150,9 +150,9 @@ Definition ex_portfolio : list position :=
   [mkPos false (1000 * ONE) ONE ONE ex_coll None; mkPos true (800 * ONE) ONE ONE ex_lender None].
 Example C13_nonvacuous :
   Valid w_caps ex_lender /\
-  account_health RInitial ex_portfolio = Ok (875 * ONE, 800 * ONE) /\
-  account_health RMaint ex_portfolio = Ok (1875 * ONE / 2, 800 * ONE) /\
-  account_health_no_emode RInitial ex_portfolio = Ok (500 * ONE, 800 * ONE) /\
+  account_health CRInitial ex_portfolio = Ok (875 * ONE, 800 * ONE) /\
+  account_health CRMaint ex_portfolio = Ok (1875 * ONE / 2, 800 * ONE) /\
+  account_health_no_emode CRInitial ex_portfolio = Ok (500 * ONE, 800 * ONE) /\
   is_ok (bc_validate (w_cfg ONE (ONE + 1) OP_OPERATIONAL)) = false /\
   is_ok (ix_configure_bank w_caps ex_lender
            (mkCO None None None None None None (Some OP_KILLED) None None None None None None None None None)) = false.
